@@ -446,7 +446,38 @@ def tail (cfg : Cfg) (a : A) (evs : List Ev) : A :=
 
 /-! ### one round -/
 
-def round (cfg : Cfg) (a : A) (r : Round) (evs : List Ev) : A :=
+/-! ### C14: a notice is never invented -/
+
+/-- Every FAILED_MESSAGE written while one frame is handled reports a delivery that was really under way: it names a
+module of the table and carries the type, source and destination either of the data frame just read (the frame being
+forwarded) or of a message the manager itself originates (source 0; destination 0, or — for an ACKNOWLEDGE — the
+requester).  `rd = none`: the stretch before the first read of a round and the periodic section. -/
+def noticeJustified (cfg : Cfg) (a : A) (rd : Option Read) (f : Frame) : Bool :=
+  match f.body with
+  | .failed dm t s d =>
+    let own := isMgrType cfg t && s == 0 && (d == 0 || t == cfg.mtAck)
+    let fwd := match rd with
+      | none => false
+      | some r =>
+        let h := r.h
+        !r.hdrErr && r.hdrOk && !isControl cfg h.mtype && t == h.mtype && s == h.src && d == h.dest
+    let connecting := match rd with
+      | some r => r.h.mtype == cfg.mtConnect || r.h.mtype == cfg.mtConnectV2
+      | none => false
+    (own || fwd) && (connecting || a.mods.any (fun m => m.alive && m.modId == dm))
+  | _ => true
+
+def checkNoticeOrigin (cfg : Cfg) (a : A) (rd : Option Read) (evs : List Ev) : A :=
+  match (sends evs).find? (fun p => !noticeJustified cfg a rd p.2.2) with
+  | none => a
+  | some p =>
+    match p.2.2.body with
+    | .failed dm t s d =>
+      a.err "C14" s!"a FAILED_MESSAGE sent to {p.1} names subscriber id {dm} and carries type {t}, source {s}, destination {d}: no such delivery was under way"
+    | _ => a
+
+/-- everything of one round but the periodic section: returns the state and the events of the round's last stretch -/
+def roundBody (cfg : Cfg) (a : A) (r : Round) (evs : List Ev) : A × List Ev :=
   -- a failure mode can only be given to a connection that exists when the round starts
   let a : A := { a with now := a.now + r.dt,
                         fail := (r.failSet.filter (·.1 ≤ a.nAccepted)).foldl (fun fl (p : Nat × Option FailMode) => setFail fl p.1 p.2) a.fail }
@@ -458,7 +489,7 @@ def round (cfg : Cfg) (a : A) (r : Round) (evs : List Ev) : A :=
   let (pre, segs) := splitRd evs
   -- `pre`: the accept log; nothing may be closed or acknowledged there
   let a := a.chk ((closes pre).isEmpty || !(wfails pre).isEmpty) "C07" "a connection was closed before any frame was read in this round"
-  let a := applyDepartures (checkDepartures cfg a none pre) pre
+  let a := applyDepartures (checkDepartures cfg (checkNoticeOrigin cfg a none pre) none pre) pre
   -- every frame the script delivers to a live connection is read, in order, unless its connection died earlier in the round
   let rec go (a : A) (reads : List Read) (segs : List (Nat × List Ev)) (fuel : Nat) : A :=
     match fuel, reads, segs with
@@ -474,7 +505,7 @@ def round (cfg : Cfg) (a : A) (r : Round) (evs : List Ev) : A :=
             if u != rd.uid then a.err "C05" s!"expected the frame from {rd.uid} to be read next, the manager read from {u}"
             else
               -- the last segment of the round also contains the periodic messages
-              go (segment cfg a rd evs) rest segs' fuel
+              go (segment cfg (checkNoticeOrigin cfg a (some rd) evs) rd evs) rest segs' fuel
           | [] => a.err "C03" s!"the frame pending on live connection {rd.uid} was never read"
       | none => go a rest segs fuel
   let a := go a reads segs (reads.length + segs.length + 1)
@@ -482,7 +513,16 @@ def round (cfg : Cfg) (a : A) (r : Round) (evs : List Ev) : A :=
   -- nested notices are sent inside the statistics context and are not counted)
   let a := if segs.isEmpty then a else (pre :: (segs.dropLast.map (·.2))).foldl (noteMgrFrames cfg) a
   let lastEvs := match segs.getLast? with | some s => s.2 | none => pre
-  tail cfg a lastEvs
+  (a, lastEvs)
+
+def round (cfg : Cfg) (a : A) (r : Round) (evs : List Ev) : A :=
+  let p := roundBody cfg a r evs
+  tail cfg p.1 p.2
+
+/-- the round in which `run()` was terminated: what was handled before the exception is judged like any other round (a
+frame whose delivery was cut short leaves its obligations — copies, acknowledgement, notices — unmet); the periodic section,
+which was never reached, is not judged -/
+def roundCrashed (cfg : Cfg) (a : A) (r : Round) (evs : List Ev) : A := (roundBody cfg a r evs).1
 
 /-! ### whole-history checks (C05) -/
 
@@ -578,35 +618,24 @@ def runSpec (cfg : Cfg) (rounds : List Round) (obs : List (List Ev)) (crash : Op
   let a := match crash with
     | some w => a0.err "C03" s!"MessageManager.run() was terminated by {w}"
     | none => a0
-  -- a manager that dies in the middle of an operation leaves that operation's obligations unmet for everybody else
+  -- a manager that dies in a round in which a client left (or a write to a client failed) has let that departure affect
+  -- everybody else; what it did in that round before it died is judged by `roundCrashed` below
   let a := match crash with
     | none => a
     | some w =>
       let lastEvs := obs.getLast?.getD []
-      let a := if !(closes lastEvs).isEmpty || !(wfails lastEvs).isEmpty then
-          a.err "C07" s!"the manager was terminated by {w} while it handled the departure of connection {(wfails lastEvs ++ closes lastEvs).head?.getD 0}: the remaining clients are no longer served"
-        else a
-      let a := if !(wfails lastEvs).isEmpty then
-          a.err "C14" s!"the manager was terminated by {w} while it handled the failed write to connection {(wfails lastEvs).head?.getD 0}: the failure is not reported and the other subscribers are no longer served"
-        else a
-      -- the frame being processed when it died
-      let lastRd := (lastEvs.filterMap (fun (e : Ev) => match e with | Ev.rd u => some u | _ => none)).getLast?
-      let crashRound := rounds.drop (obs.length - 2)
-      match lastRd, crashRound.head? with
-      | some u, some r =>
-        (match (r.reads.filter (fun (x : Read) => x.uid == u)).getLast? with
-         | some rd =>
-           if !isControl cfg rd.h.mtype && rd.hdrOk && !rd.hdrErr then
-             a.err "C01" s!"the manager was terminated by {w} while it forwarded frame {rd.h.k} (type {rd.h.mtype}): delivery to the eligible subscribers was not completed"
-           else if rd.h.mtype == cfg.mtSubscribe || rd.h.mtype == cfg.mtUnsubscribe || rd.h.mtype == cfg.mtPause ||
-                   rd.h.mtype == cfg.mtResume || rd.h.mtype == cfg.mtConnect then
-             a.err "C19" s!"the manager was terminated by {w} while it processed the control frame {rd.h.k} from {u}"
-           else a
-         | none => a)
-      | _, _ => a
+      if !(closes lastEvs).isEmpty || !(wfails lastEvs).isEmpty then
+          a.err "C07" s!"the manager was terminated by {w} in the round in which connection {(wfails lastEvs ++ closes lastEvs).head?.getD 0} departed: the remaining clients are no longer served"
+      else a
   let a := a.chk (obs.length == rounds.length + 1 || crash.isSome) "C03" "the manager did not play every round of the script"
   let pairs := List.zip rounds (obs.drop 1)
-  let a := pairs.foldl (fun a p => round cfg a p.1 p.2) a
+  let a := match crash with
+    | none => pairs.foldl (fun a p => round cfg a p.1 p.2) a
+    | some _ =>
+      let a := pairs.dropLast.foldl (fun a p => round cfg a p.1 p.2) a
+      match pairs.getLast? with
+      | some p => roundCrashed cfg a p.1 p.2
+      | none => a
   let all := obs.flatten
   let senderTbl : List (Nat × Nat) := rounds.flatMap (fun r => r.reads.map (fun rd => (rd.h.k, rd.uid)))
   let senderOf := fun k => match senderTbl.find? (·.1 == k) with | some p => p.2 | none => 0
